@@ -2,8 +2,12 @@
    Reference semantics: Spec/FitSyntax.v (denote), written from the protocol rules independently of the decoder
    model. *)
 From Coq Require Import NArith ZArith List Bool.
-From FitV Require Import Model.Values Model.Bytes Model.Base Model.Profile Model.Decode Spec.FitSyntax Spec.ProfileWf
-  Proofs.ProfileProofs Proofs.DecodeLemmas.
+From FitV Require Import Model.Values Model.Bytes Model.Base Model.Profile Model.Reflect Model.IO Model.Header Model.Route
+  Model.Components Model.Decode Spec.FitSyntax Spec.RouteSpec Spec.ProfileWf
+  Proofs.ProfileProofs Proofs.DecodeLemmas
+  Proofs.StreamDenoteDefs Proofs.StreamDenoteField Proofs.StreamDenoteData Proofs.StreamDenoteLoop Proofs.StreamDenoteLift
+  Proofs.StreamDenoteMain Proofs.StreamDenoteFrame Proofs.StreamDenoteDecode Proofs.StreamDenoteCor Proofs.StreamDenoteSkip
+  Proofs.StreamDenoteSlots Proofs.StreamDenoteWitness Proofs.StreamDenoteStrip Proofs.StreamDenoteChained.
 Import ListNotations.
 Local Open Scope N_scope.
 
@@ -19,6 +23,189 @@ Proof.
 Qed.
 Print Assumptions C02_absent_fields_invalid.
 
-(* PARTIAL: decode_denote (wf_stream s -> Decode (serialize s) = route (denote s)) by induction over streams is
-   not yet a theorem; the harness evaluates the extracted [denote] on every generated stream and compares it
-   with what the real Decode returned, field by field. *)
+(* ---------------------------------------------------------------------------------------------------------
+   decode_denote.  Vocabulary (Proofs/StreamDenoteDefs.v, all computable):
+     stream_wf rs      every record is serialisable: all components bytes, global number < 65536, compressed offset
+                       < 32, reserved bits 5-6 of every base-type byte zero (canon_bt);
+     no_time_quirk rs  the stream stays off the two recorded C12 defects: no explicit timestamp 0, no compressed
+                       step landing on 0, every valid local_date_time value meets a reference >= 0x10000000;
+     denote rs         the reference semantics (Spec/FitSyntax.v); it checks [compat] for every definition;
+     Inv               decoder state ~ reference state (slots = environment, time reference, counters, File =
+                       File.add of the denoted messages in order).
+   --------------------------------------------------------------------------------------------------------- *)
+
+(* one field: for every profile entry, every compatible definition (all integer base types, narrower definitions
+   with zero/sign extension, both byte orders, strings, arrays of any length, string arrays) and any wire bytes the
+   decoder's storing functions yield exactly the value the reference semantics assigns *)
+Theorem C02_native_field_agree : forall be gmn f p ref buf,
+  get_field gmn (sf_num f) = Some p -> compat gmn f = true -> canon_bt f = true ->
+  fit_kind (pf_t p) = kind_native ->
+  List.length buf = N.to_nat (sf_size f) -> all_bytes buf = true ->
+  (if negb (fit_array (pf_t p)) then parse_fit_field be (to_fdef f) buf (gotype_of_fit (pf_t p))
+   else parse_fit_field_array be (to_fdef f) buf (gotype_of_fit (pf_t p))) =
+  res_of (denote_field be f p (gotype_of_fit (pf_t p)) ref buf).
+Proof. exact native_field_agree. Qed.
+Print Assumptions C02_native_field_agree.
+
+(* the record loop, by induction over the record list (any length, any interleaving of the 16 local types,
+   redefinitions, compressed headers, unknown messages, developer fields): success, exactly the bytes consumed,
+   no Fail / I/O error / panic, invariant re-established with the state [denote_from] returns *)
+Theorem C02_decode_denote_records : forall rs o pre fb gb ft s0 ss0 ss1 tl t n lim fuel,
+  Inv o pre fb gb ft s0 ss0 ->
+  stream_wf rs = true -> no_time_quirk_from ss0 rs = true -> denote_from ss0 rs = Some ss1 ->
+  (n + List.length (ser_records rs) = lim)%nat -> (List.length rs < fuel)%nat ->
+  exists s1,
+    run_a (decode_file_data o fuel) (Proofs.StreamDenoteBase.ast_at (ser_records rs) tl t n lim) s0 =
+      ROk tt (Proofs.StreamDenoteBase.ast_at [] tl t lim lim) s1 /\
+    Inv o pre fb gb ft s1 ss1.
+Proof. exact decode_denote_records. Qed.
+Print Assumptions C02_decode_denote_records.
+
+(* the whole buffered phase of decode (file_id prologue, File.init, record loop) on the abstract interpreter *)
+Theorem C02_decode_denote_abstract : forall o h g rs ss1 f2 g1 tl t,
+  starts_with_file_id rs = true -> stream_wf rs = true -> no_time_quirk rs = true -> denote rs = Some ss1 ->
+  start_file h g (hd dummy_msg (ss_msgs ss1)) = Some (f2, g1) ->
+  let L := List.length (ser_records rs) in
+  exists s1 f g',
+    run_a (data_prog o false (S L)) (mk_ast (ser_records rs ++ tl) t 0 L) (init_dstate (new_file h) g) =
+      ROk tt (mk_ast tl t L L) s1 /\
+    route_msgs h g (ss_msgs ss1) = Some (f, g') /\ ds_file s1 = f /\ ds_g s1 = g' /\
+    (o_unkm o = true -> ds_unkm s1 = ss_unkm ss1) /\ (o_unkf o = true -> ds_unkf s1 = ss_unkf ss1) /\
+    (exists ft, Inv o [hd dummy_msg (ss_msgs ss1)] f2 g1 ft s1 ss1).
+Proof. exact decode_denote_abstract. Qed.
+
+(* decode_denote: the entry point Decode on a complete file (header ++ records ++ CRC, then anything), through ANY
+   reader oracle (chunk schedule with empty reads, data-with-EOF, EOF or fault after the data): no error, the File
+   holds exactly the messages of [denote] routed in stream order, header and CRC as on the wire, exactly the file's
+   bytes consumed.  Side conditions: header_wf, stream_wf, no_time_quirk, the stream starts with the file_id
+   definition and message, and its file type is one the library has a container for (start_file = Some). *)
+Theorem C02_decode_denote : forall o g rd fuel h rs ss1 f2 g1 extra,
+  header_wf h -> h_dsize h = N.of_nat (List.length (ser_records rs)) ->
+  starts_with_file_id rs = true -> stream_wf rs = true -> no_time_quirk rs = true -> denote rs = Some ss1 ->
+  start_file h g (hd dummy_msg (ss_msgs ss1)) = Some (f2, g1) ->
+  rd_data rd = fit_file h rs ++ extra ->
+  (List.length (rd_data rd) + List.length (rd_sched rd) < fuel)%nat ->
+  exists rd' file' f g' q,
+    entry_Decode o g rd fuel = TDone (mk_dres None h (Some file') rd' g' q) /\
+    route_msgs h g (ss_msgs ss1) = Some (f, g') /\
+    f_slots file' = f_slots f /\ f_inited file' = f_inited f /\ f_header file' = h /\
+    f_crc file' = file_crc h (ser_records rs) /\
+    (o_unkm o = true -> f_unkm file' = Some (sorted_unkm ss1)) /\
+    (o_unkf o = true -> f_unkf file' = Some (sorted_unkf ss1)) /\
+    rd_pos rd' = (rd_pos rd + List.length (fit_file h rs))%nat /\ rd_data rd' = extra.
+Proof. exact Decode_denote. Qed.
+Print Assumptions C02_decode_denote.
+
+(* the hypotheses are satisfiable: a concrete file (explicit timestamp, compressed header, redefinition of a local
+   type, local_date_time) read in chunks of 3, 0, 1, 7, ... bytes *)
+Example C02_decode_denote_example :
+  header_wf ok_hdr /\ h_dsize ok_hdr = N.of_nat (List.length (ser_records ok_stream)) /\
+  starts_with_file_id ok_stream = true /\ stream_wf ok_stream = true /\ no_time_quirk ok_stream = true /\
+  (exists ss f2 g1, denote ok_stream = Some ss /\ start_file ok_hdr g_init (hd dummy_msg (ss_msgs ss)) = Some (f2, g1)) /\
+  rd_data ok_reader = fit_file ok_hdr ok_stream ++ [1; 2; 3] /\
+  (List.length (rd_data ok_reader) + List.length (rd_sched ok_reader) < 200)%nat /\
+  match entry_Decode no_opts g_init ok_reader 200 with
+  | TDone r => dr_err r = None /\ rd_pos (dr_rd r) = 67%nat
+  | _ => False
+  end.
+Proof. exact Decode_denote_example. Qed.
+
+(* FULL STATEMENT (refuted): decode_denote without [no_time_quirk] / without [canon_bt].  The time side condition
+   is the pair of C12 known findings (witnesses in Props/C12.v); the reserved-bits condition is needed because
+   the validator admits a base-type byte with bits 5-6 set (types.Base.Known looks at bits 0-4 and 7 only) while
+   parseFitField switches on the whole byte: the reference semantics accepts the stream, the decoder fails *)
+Theorem C02_decode_denote_reserved_bits_refuted :
+  all_bytes (ser_records w_reserved) = true /\ stream_wf w_reserved = false /\ no_time_quirk w_reserved = true /\
+  (exists a, spec_slots w_reserved = Some a) /\
+  match model_run w_reserved with RFail EParseField _ _ => True | _ => False end.
+Proof. exact decode_denote_reserved_bits_refuted. Qed.
+
+(* unknown_skipped.  (1) deleting a data record of a message the profile does not know changes no decoded message *)
+Theorem C02_unknown_record_skipped : forall o h g rs1 l pay dev rs2 sm d,
+  denote_from ss_init rs1 = Some sm -> lookup_def (ss_env sm) l = Some d -> known_msg (sd_gmn d) = false ->
+  in_domain h g (rs1 ++ RData l pay dev :: rs2) -> in_domain h g (rs1 ++ rs2) ->
+  decoded_file o h g (rs1 ++ RData l pay dev :: rs2) = decoded_file o h g (rs1 ++ rs2).
+Proof. exact unknown_record_skipped_decoder. Qed.
+Print Assumptions C02_unknown_record_skipped.
+(* ... where decoded_file is the File of the decoder model and, inside the domain, a function of the denoted messages *)
+Theorem C02_decoded_is_routed : forall o h g rs ss, in_domain h g rs -> denote rs = Some ss ->
+  decoded_file o h g rs = route_msgs h g (ss_msgs ss) /\ decoded_file o h g rs <> None.
+Proof. exact decoded_is_routed. Qed.
+(* (2) deleting an unlisted field from a definition, with its bytes from the payload, changes neither the message nor
+   the time reference; (3) developer bytes are never looked at.  Both are statements about [denote], which is what
+   Decode returns by C02_decode_denote. *)
+Theorem C02_unlisted_field_skipped : forall be gmn f1 f f2 p1 b p2 m ref unl,
+  get_field gmn (sf_num f) = None -> List.length p1 = psize f1 -> List.length b = N.to_nat (sf_size f) ->
+  let r := denote_fields be gmn (f1 ++ f :: f2) (p1 ++ b ++ p2) m ref unl in
+  let r' := denote_fields be gmn (f1 ++ f2) (p1 ++ p2) m ref unl in
+  fst (fst r) = fst (fst r') /\ snd (fst r) = snd (fst r').
+Proof. exact unlisted_field_skipped. Qed.
+Theorem C02_dev_bytes_ignored : forall s l off pay dev dev',
+  List.length dev = List.length dev' -> denote_data s l off pay dev = denote_data s l off pay dev'.
+Proof. exact dev_bytes_ignored. Qed.
+
+(* neighbours_undisturbed: changing the bytes of one field (other than the timestamp field 253, which legitimately
+   re-bases the reference later local_date_time fields are read against) changes no other struct field of the
+   message, nor the time reference, nor the unknown-field list *)
+Theorem C02_neighbours_undisturbed : forall be gmn f1 f f2 p1 b b' p2 m ref unl,
+  List.length p1 = psize f1 -> List.length b = N.to_nat (sf_size f) -> List.length b' = N.to_nat (sf_size f) ->
+  negb (sf_num f =? Gen.Consts.c_fieldNumTimeStamp) = true ->
+  let r := denote_fields be gmn (f1 ++ f :: f2) (p1 ++ b ++ p2) m ref unl in
+  let r' := denote_fields be gmn (f1 ++ f :: f2) (p1 ++ b' ++ p2) m ref unl in
+  snd (fst r) = snd (fst r') /\ snd r = snd r' /\ m_num (fst (fst r)) = m_num (fst (fst r')) /\
+  forall j, (match get_field gmn (sf_num f) with Some p => j <> pf_sindex p | None => True end) ->
+    nth_error (m_fields (fst (fst r))) j = nth_error (m_fields (fst (fst r'))) j.
+Proof. exact neighbours_undisturbed. Qed.
+Print Assumptions C02_neighbours_undisturbed.
+
+(* unknown_skipped as ONE stream rewriting.  [strip [] rs] deletes from rs everything the profile does not know:
+   unlisted fields from every definition and their bytes from every payload, all developer field definitions and
+   developer bytes, every plain data record of an unknown message, the field lists of definitions of unknown
+   messages; a compressed-timestamp record of an unknown message is kept as a bare header, because its header
+   still advances the time reference (two rollover steps are not one).  [strip_clean] says nothing unknown is left.
+   The stripped stream denotes the same messages and time reference, stays inside the domain of decode_denote, and
+   the decoder returns the same File. *)
+Theorem C02_unknown_skipped : forall rs ss, denote rs = Some ss ->
+  exists ss', denote (strip [] rs) = Some ss' /\ ss_msgs ss' = ss_msgs ss /\ ss_ref ss' = ss_ref ss.
+Proof. exact unknown_skipped. Qed.
+Theorem C02_strip_clean : forall rs, clean (strip [] rs) = true.
+Proof. exact strip_clean. Qed.
+Theorem C02_strip_in_domain : forall h g rs, in_domain h g rs -> in_domain h g (strip [] rs).
+Proof. exact strip_in_domain. Qed.
+Theorem C02_unknown_skipped_decoder : forall o h g rs, in_domain h g rs ->
+  decoded_file o h g (strip [] rs) = decoded_file o h g rs.
+Proof. exact unknown_skipped_decoder. Qed.
+Print Assumptions C02_unknown_skipped_decoder.
+(* when no compressed-timestamp record addresses an unknown message, the definitions of unknown messages go too *)
+Theorem C02_unknown_skipped_all_decoder : forall o h g rs, no_unknown_comp [] rs = true -> in_domain h g rs ->
+  decoded_file o h g (strip_all [] rs) = decoded_file o h g rs.
+Proof. exact unknown_skipped_all_decoder. Qed.
+
+(* DecodeChained on a concatenation of k >= 1 files, each in the domain of decode_denote from the accumulator state
+   the previous one left (chain_domain), followed by a clean EOF, through any reader: no error, exactly k Files,
+   each the routed denotation of its record list (chain_result), all bytes consumed *)
+Theorem C02_DecodeChained_denote : forall o fs g rd fuel,
+  fs <> [] -> chain_domain g fs -> rd_data rd = chain_bytes fs -> rd_term rd = TEOF ->
+  (List.length (rd_data rd) + List.length (rd_sched rd) < fuel)%nat ->
+  exists rd' files' g' q,
+    entry_DecodeChained o g rd fuel = TDone (mk_cres None files' rd' g' q) /\
+    rd_data rd' = [] /\ rd_pos rd' = (rd_pos rd + List.length (chain_bytes fs))%nat /\
+    List.length files' = List.length fs /\ chain_result o g fs files' g'.
+Proof. exact DecodeChained_denote. Qed.
+Print Assumptions C02_DecodeChained_denote.
+(* ... and each of them is the File (and accumulator state, and quirk tags) Decode returns on that file alone from
+   the same accumulator state (C10 flavour; rests on the tail-irrelevance of the abstract interpreter) *)
+Theorem C02_DecodeChained_is_map_Decode : forall o fs g rd fuel,
+  fs <> [] -> chain_domain g fs -> rd_data rd = chain_bytes fs -> rd_term rd = TEOF ->
+  (List.length (rd_data rd) + List.length (rd_sched rd) < fuel)%nat ->
+  exists rd' files' g' q,
+    entry_DecodeChained o g rd fuel = TDone (mk_cres None files' rd' g' q) /\
+    chain_alone o g fs files' g' q.
+Proof. exact DecodeChained_is_map_Decode. Qed.
+Example C02_DecodeChained_example :
+  chain_domain g_init ok_chain /\ rd_data ok_chain_reader = chain_bytes ok_chain /\ rd_term ok_chain_reader = TEOF /\
+  (List.length (rd_data ok_chain_reader) + List.length (rd_sched ok_chain_reader) < 400)%nat.
+Proof. exact ok_chain_in_domain. Qed.
+
+(* PARTIAL (what is not a theorem): streams on the recorded time-defect paths are outside the theorem (C12);
+   DecodeChained is lifted for chains ending in a clean EOF (a chain followed by garbage or a fault is C10/C11). *)
